@@ -75,6 +75,8 @@ func c18Body(r *Run) {
 		replyPub.FailAt[1+t.Int(8)] = PubErr // transient failures of the reply publisher
 	}
 	finished := map[int]int{}
+	finishedAt := map[int]time.Duration{} // when OnListenForReplyFinished ran
+	startedAt := map[int]time.Duration{}  // when the caller issued its request
 	// one run in three: failures of the reply publisher are tolerated by a ReplyPublishErrorHandler (it returns nil):
 	// the command is then settled as if the reply had been sent, i.e. as AckCommandErrors says
 	var tolerate requestreply.ReplyPublishErrorHandler
@@ -97,6 +99,7 @@ func c18Body(r *Run) {
 		OnListenForReplyFinished: func(ctx context.Context, p requestreply.PubSubBackendSubscribeParams) {
 			if c, ok := p.Command.(*c18Cmd); ok {
 				finished[c.Caller]++
+				finishedAt[c.Caller] = r.Sim.Now()
 			}
 		},
 	}, requestreply.BackendPubsubJSONMarshaler[c18Result]{})
@@ -248,6 +251,12 @@ func c18Body(r *Run) {
 			if c.sendErr != nil {
 				continue
 			}
+			// the configured time-out ends the listener when it passes, whatever deadline the caller's own context has
+			if timeout != nil && finished[c.id] >= 1 && r.Params["stalled"] == 0 {
+				if took := finishedAt[c.id] - startedAt[c.id]; took > *timeout+5*time.Millisecond {
+					r.Fail("C18.R3", "the reply listener outlived ListenForReplyTimeout", "%s: listening ended %v after the request was issued, ListenForReplyTimeout %v", what, took, *timeout)
+				}
+			}
 			if finished[c.id] != 1 {
 				sig := "OnListenForReplyFinished did not run exactly once for a finished request"
 				if finished[c.id] == 0 {
@@ -323,6 +332,7 @@ func c18Body(r *Run) {
 				}
 			}()
 			cmd := &c18Cmd{Caller: c.id}
+			startedAt[c.id] = r.Sim.Now()
 			switch c.behaviour {
 			case 0:
 				// (one caller in three gives up early: before the handler can have answered)
@@ -414,6 +424,7 @@ func init() {
 			c.StepCap = 150000
 			if r.T.Chance(1, 3) {
 				c.ClockJumps, c.JumpMax, c.JumpWithin = 3, time.Second, 1500
+				r.Param("stalled", 1)
 			}
 			return c
 		},
